@@ -297,8 +297,10 @@ def expandIndirect (ref : Param) (env : Str → Option Param) (allowUnset nounse
     | some t => expandParam t allowUnset nounset
 
 /-- `expand_parameter_expr` for `${!ref…}` (the arms of `expandExpr` with the indirect lookup).
-The parameter written in the braces is the reference: it is what `=` assigns to, and it is never
-the `$@` slice that gets `$0` put in front.  `${#ref}` has no indirect form. -/
+`=` resolves the reference once more (`expand_parameter_without_indirect(reference, true)` +
+`parse_parameter`) and assigns to the parameter it names (`assigned` is the value given to that
+target).  The parameter written in the braces is the reference, so it is never the `$@` slice that
+gets `$0` put in front.  `${#ref}` has no indirect form. -/
 def expandExprInd (ref : Param) (env : Str → Option Param) (nounset : Bool) (m : Str → Bool) : Op → Outcome
   | .plain =>
     match expandIndirect ref env false nounset with
@@ -321,9 +323,12 @@ def expandExprInd (ref : Param) (env : Str → Option Param) (nounset : Bool) (m
         else { res := .ok (ofStr []) }
       | .error => { res := .err }
       | .assign =>
-        match ref with
-        | .named _ | .elem _ _ => { res := .ok (ofStr word), assigned := some word }
-        | _ => { res := .err }
+        match expandParam ref true nounset with
+        | none => { res := .err }
+        | some r =>
+          match env (fieldsToString r) with
+          | some (.named _) | some (.elem _ _) => { res := .ok (ofStr word), assigned := some word }
+          | _ => { res := .err }
   | .rm k hasPat =>
     match expandIndirect ref env false nounset with
     | some e => { res := .ok (if hasPat then mapFields e (removeWith k m) else e) }
